@@ -37,7 +37,10 @@ def main():
     for k in range(ndocs):
         g = docgen.Gen(rng, style_density=0.06, anim_density=(0.05 if k % 2 else 0.01), display_p=0.05, ruby_p=0.04, region_ref_p=0.35)
         if k % 3 == 2: g.tp = 0.85; g.ruby_p = 0.0      # narrow content intervals: the cache skips whole documents/regions
-        d = g.doc(nreg=rng.choice([0, 1, 2, 2, 3]))
+        d = g.doc(nreg=(0 if k % 5 == 0 else rng.choice([0, 1, 2, 2, 3])))
+        if k % 5 == 0 and not list(d.iter_regions()):
+            import ttconv.style_properties as s_
+            d.put_initial_value(s_.StyleProperties.BackgroundColor, rng.choice(docgen.COLORS))   # default region paints the initial background
         # regions whose background is visible only by animation or initial values
         import ttconv.style_properties as s, ttconv.model as m
         for r in d.iter_regions():
